@@ -69,11 +69,12 @@ class _W:
     pass
 
 
-@unit("C23", covers=[(WR, "Writer.visit_constant")])
-def visit_constant(U):
-    """string constants are written through string()"""
+@unit("C23", covers=[(WR, "Writer.visit_constant")], params=[{"n": k} for k in (0, 1, 2, 4, 5)], samples=120)
+def visit_constant(U, n):
+    """string constants of every content (lengths 0..5: includes the texts of Java keywords such as true / false / null) are
+    written through string(), i.e. as a quoted literal"""
     m = U.mod(WR)
-    s = U.str("s", 1)
+    s = U.str("s", n, 0x20, 0x7E) if n >= 4 else U.str("s", n)
     w = object.__new__(m.Writer)
     out = []
     w.write = lambda text, data=None: out.append((text, data))
